@@ -5,6 +5,7 @@ import os
 import random
 import shutil
 import tempfile
+import time
 
 from . import common as C
 from . import cloneeng as E
@@ -36,6 +37,14 @@ def config_from(rng, sims, sizes, lines):
     return req
 
 
+def floor_large(req, tag):
+    """projects with a large fragment: the statements inside it (hundreds of blocks of 2-4 lines) stay below the minimum size, otherwise every one of them
+    is a fragment and the number of pairs explodes (a bound on the cost of the run, not on the property)"""
+    if tag.startswith("L"):
+        req["MinLines"] = max(req["MinLines"], 5)
+    return req
+
+
 def check_case(res, hist, pr, req, tag, g, lean_out, nontrivial):
     """all oracles on one harness response (+ the model's answer for it)"""
     cfg, frags = g["cfg"], g["frags"]
@@ -54,6 +63,8 @@ def check_case(res, hist, pr, req, tag, g, lean_out, nontrivial):
     for (i, j), r in raw.items():
         if i < j:
             q = raw[(j, i)]
+            if r["OK"] and frags[i]["Type"].startswith("Async") != frags[j]["Type"].startswith("Async"):
+                hist["sync_async_pairs_measured"] += 1
             if (r["OK"], r["Sim"], r["Dist"]) != (q["OK"], q["Sim"], q["Dist"]):
                 res.violation("C08 order: the measurement of a pair depends on which fragment comes first: (%d,%d) -> %s, (%d,%d) -> %s"
                               % (i, j, (r["OK"], f(r["Sim"]), f(r["Dist"])), j, i, (q["OK"], f(q["Sim"]), f(q["Dist"]))),
@@ -119,11 +130,27 @@ def check_case(res, hist, pr, req, tag, g, lean_out, nontrivial):
             repset[frozenset([(p["P1"], p["S1"]), (p["P2"], p["S2"])])] = p
         for (pa, ka), (pb, kb) in pr.planted:
             sa, sb = pr.fn_span(pa, ka), pr.fn_span(pb, kb)
-            fa = [x for x in frags if x["Path"] == pa and x["S"] == sa[0] and x["Type"] == "FunctionDef"]
-            fb = [x for x in frags if x["Path"] == pb and x["S"] == sb[0] and x["Type"] == "FunctionDef"]
+            fa = [x for x in frags if x["Path"] == pa and x["S"] == sa[0] and x["Type"] in ("FunctionDef", "ClassDef")]
+            fb = [x for x in frags if x["Path"] == pb and x["S"] == sb[0] and x["Type"] in ("FunctionDef", "ClassDef")]
             if not fa or not fb:
-                continue            # below the configured minimum size: nothing is required
+                # below the configured minimum size nothing is required — but the two copies have the same tree: when one of them IS a fragment and the
+                # other, placed under an except / finally clause, is not, the placement hid it
+                pl = [pr.offset.get(k_, (0, None))[1] for k_ in ((pa, ka), (pb, kb))]
+                missing = (pb, sb) if fa else (pa, sa)
+                # (the copies have the same tree, hence the same node count; their LINE counts differ when one rendering carries comment / blank lines)
+                if (fa or fb) and any(pl) and missing[1][1] - missing[1][0] + 1 >= cfg["MinLines"]:
+                    hist["placement_checked"] = hist.get("placement_checked", 0) + 1
+                    res.violation("C08 verbatim: the copy at %s:%d placed under `%s` is not extracted as a fragment although the same definition at %s is (so the pair cannot be reported)"
+                                  % (missing[0], missing[1][0], [x for x in pl if x][0], "%s:%d" % ((pa, sa[0]) if fa else (pb, sb[0]))),
+                                  dict(replay, signature={"kind": "verbatim-not-a-fragment", "placement": [x for x in pl if x][0]}))
+                continue
             hist["planted_checked"] += 1
+            if pr.offset.get((pa, ka)) or pr.offset.get((pb, kb)):
+                hist["placement_checked"] = hist.get("placement_checked", 0) + 1
+            big = max(fa[0]["Size"], fb[0]["Size"])
+            hist["planted_by_tree_size"]["<=500" if big <= 500 else "501-2000" if big <= 2000 else ">2000"] += 1
+            if fa[0]["Type"] == "ClassDef":
+                hist["planted_classes_checked"] += 1
             p = repset.get(frozenset([(pa, sa[0]), (pb, sb[0])]))
             heavy = max(fa[0]["Lines"], fb[0]["Lines"]) > 2 * min(fa[0]["Lines"], fb[0]["Lines"])
             sig = {"kind": "verbatim-missed", "line_ratio_over_2": heavy}
@@ -158,11 +185,23 @@ def run(tier, seed, replay=None):
         "the measurement of a pair (size/line pre-filters, Jaccard pre-filter, classifier gate, APTED similarity and distance) is a parameter of the model; "
         "its symmetry is a hypothesis of C08_order and is checked on the real code for every ordered pair of every generated project; identity (distance 0, "
         "similarity 1 for identical trees) is C07's theorem and is checked here on planted copies",
-        "verbatim = the same function text up to blank lines, comment lines, trailing comments and indentation width, same name, placed in the same file, another file or another directory",
+        "verbatim = the same function (or class) text up to blank lines, comment lines, trailing comments and indentation width, same name, placed in the same file, another file or another directory",
+        "for verbatim copies of large fragments (more than 500 nodes) the property's own clause is checked on the report (pair present, similarity 1.0, distance 0, Type-1) together with "
+        "all other oracles; their distance is not recomputed by the exact model (the measurement is a parameter of the clone model)",
     ]
     mult = 1 if ps.ok else 6
     nproj = (40 if tier == "quick" else 400) * mult
-    hist = {"projects": 0, "configs": 0, "fragments": 0, "reported_pairs": 0, "planted_checked": 0, "order_variants": 0, "cli_runs": 0}
+    hist = {"projects": 0, "configs": 0, "fragments": 0, "reported_pairs": 0, "planted_checked": 0, "order_variants": 0, "cli_runs": 0,
+            "async_twins": 0, "projects_with_async_twins": 0, "sync_async_pairs_measured": 0, "large_projects": 0, "large_projects_dropped": 0,
+            "planted_by_tree_size": {"<=500": 0, "501-2000": 0, ">2000": 0}, "planted_classes_checked": 0, "regenerated_over_quick_cap": 0}
+    phases = {}
+    t_last = [res.t0]
+
+    def phase(name):
+        now = time.time()
+        phases[name] = round(phases.get(name, 0.0) + now - t_last[0], 1)
+        t_last[0] = now
+    phase("prove")
     nontrivial = set()
     cases = []      # (project, req, tag)
     projects = []
@@ -172,11 +211,54 @@ def run(tier, seed, replay=None):
             pr = E.Project()
             pr.files = [(f["Path"], [f["Src"].split("\n")]) for f in rp["files"]]
             cases.append((pr, rp.get("req", {}), "replay"))
+    # quick tier: the cost of one project grows with the fourth power of its text (pairs x tree sizes) and a handful of the largest ones used to take most
+    # of the run; they are regenerated (same generator, same dimensions) until the text is below a cap. The thorough tier has no cap.
+    cap = 9000 if tier == "quick" else None
+    twin_projects = []
     for i in range(nproj):
-        pr = E.gen_project(rng, heavy_noise=(i % 10 == 9))
+        for attempt in range(40):
+            pr = E.gen_project(rng, heavy_noise=(i % 10 == 9))
+            # every third project: sync/async twins (a function and its coroutine variant: `async def`, `async for`, `async with`)
+            tw = E.add_async_twins(pr, rng, rng.choice([1, 2])) if i % 3 == 1 else 0
+            if cap is None or sum(len(f["Src"]) for f in pr.sources()) <= cap:
+                break
+            hist["regenerated_over_quick_cap"] += 1
+        hist["async_twins"] += tw
+        if tw:
+            twin_projects.append(pr)
+        hist["projects_with_async_twins"] += 1 if tw else 0
         projects.append(pr)
         cases.append((pr, {}, "p%d/default" % i))
-    first = C.harness_batch("clones", [{"Files": pr.sources(), "Req": req, "Raw": True} for pr, req, _ in cases], jobs=14)
+    # LARGE fragments: a function or class whose compared tree has more than 500 nodes (the detector measures such pairs on a path of its own, and above
+    # 2000 nodes on a third one), verbatim in two or three places. The exact regular path is far too slow at that size (minutes per pair at 500 nodes), so
+    # a probe first measures the size of the large fragment alone (one fragment, nothing to compare) and projects whose large fragment is not above 500
+    # nodes are dropped. What is demanded of these pairs is what the property states for verbatim copies, through the same oracles as everywhere else.
+    large = []
+    for k in range((4 if tier == "quick" else 24) * mult):
+        bucket = k % 4
+        target = rng.randint(540, 640) if bucket in (0, 1) else rng.randint(700, 1700) if bucket == 2 else rng.randint(2100, 2500)
+        large.append(E.gen_large_project(rng, target, as_class=(bucket == 1)))
+    probe = E.harness_pool("clones", [{"Files": [{"Path": "probe.py", "Src": "\n".join(max((fn for _, fns in pr.files for fn in fns), key=len)) + "\n"}],
+                                       "Req": {}, "Skip": ["auto", "report_off"]} for pr in large], jobs=14)
+    for k, (pr, g) in enumerate(zip(large, probe)):
+        top = max([x["Size"] for x in g.get("frags", [])] or [0])
+        if top <= 500:
+            hist["large_projects_dropped"] += 1
+            continue
+        hist["large_projects"] += 1
+        projects.append(pr)
+        cases.append((pr, {}, "L%d/default" % k))
+    phase("generate")
+
+    def weight(c):
+        return sum(len(f["Src"]) for f in c[0].sources()) ** 2
+
+    def full(cs):
+        # `auto` is not read by this property; the service sequence without LSH is run once when the configured sequence does not use LSH either
+        return E.harness_pool("clones", [{"Files": pr.sources(), "Req": req, "Raw": True, "Skip": ["auto"], "ShareReport": True} for pr, req, _ in cs],
+                              jobs=14, weights=[weight(c) for c in cs])
+    first = full(cases)
+    phase("round1")
     # second round: configurations sitting on the observed similarities
     cases2 = []
     for (pr, _, tag), g in zip(cases, first):
@@ -186,8 +268,9 @@ def run(tier, seed, replay=None):
         sizes = sorted(set(x["Size"] for x in g["frags"]))
         lines = sorted(set(x["Lines"] for x in g["frags"]))
         for k in range(2 if tier == "quick" else 4):
-            cases2.append((pr, config_from(rng, sims, sizes, lines), tag.split("/")[0] + "/cfg%d" % k))
-    second = C.harness_batch("clones", [{"Files": pr.sources(), "Req": req, "Raw": True} for pr, req, _ in cases2], jobs=14)
+            cases2.append((pr, floor_large(config_from(rng, sims, sizes, lines), tag), tag.split("/")[0] + "/cfg%d" % k))
+    second = full(cases2)
+    phase("round2")
     allc = list(zip(cases, first)) + list(zip(cases2, second))
     lines_ = []
     for (pr, req, tag), g in allc:
@@ -196,6 +279,7 @@ def run(tier, seed, replay=None):
             continue
         lines_.append(" ".join(E.driver_prefix("std", g)))
     lean = C.driver_batch(lines_) if (lines_ and os.path.exists(C.driver_path())) else None
+    phase("lean_driver")
     if lean is None:
         ps.ok = False
         ps.broken.append("driver missing")
@@ -207,19 +291,22 @@ def run(tier, seed, replay=None):
         check_case(res, hist, pr, req, tag, g, lean[k] if lean else None, nontrivial)
         k += 1
     hist["projects"] = len(projects)
+    phase("oracles")
     # ---- third round: the SAME oracles on the batched comparison path (the path the service takes above 50 fragments; here the threshold is lowered so that
     # small projects take it) — a pair must be justified whichever path produced it ----------------------------------------------------------------------
     cases3 = []
-    for (pr, _, tag), g in list(zip(cases, first))[: (40 if tier == "quick" else 400)]:
+    r1 = list(zip(cases, first))
+    for (pr, _, tag), g in r1[: (40 if tier == "quick" else 400)] + [x for x in r1[(40 if tier == "quick" else 400):] if x[0][2].startswith("L")]:
         if "frags" not in g or len(g["frags"]) < 4:
             continue
         sims = sorted(set(E.hex2f(r["Sim"]) for r in g["raw"] if r["OK"]))
-        req3 = config_from(rng, sims, sorted(set(x["Size"] for x in g["frags"])), sorted(set(x["Lines"] for x in g["frags"])))
+        req3 = floor_large(config_from(rng, sims, sorted(set(x["Size"] for x in g["frags"])), sorted(set(x["Lines"] for x in g["frags"]))), tag)
         if rng.random() < 0.7 and len(sims) > 1:
             # reporting threshold strictly inside the band structure: above the lowest type threshold
             req3["Sim"] = rng.choice([x for x in sims if x > req3["T4"]] or [req3["T1"]])
         cases3.append((pr, req3, tag.split("/")[0] + "/batched"))
-    third = C.harness_batch("clones", [{"Files": pr.sources(), "Req": req, "Raw": False, "BatchThreshold": 2, "BatchSizes": []} for pr, req, _ in cases3], jobs=14)
+    third = E.harness_pool("clones", [{"Files": pr.sources(), "Req": req, "Raw": False, "BatchThreshold": 2, "BatchSizes": [], "Skip": ["auto", "report_off"]}
+                                      for pr, req, _ in cases3], jobs=14, weights=[weight(c) for c in cases3])
     hist["batched_path_configs"] = 0
     for (pr, req, tag), g in zip(cases3, third):
         if "error" in g or "frags" not in g:
@@ -227,18 +314,21 @@ def run(tier, seed, replay=None):
         hist["configs"] += 1
         hist["batched_path_configs"] += 1
         check_case(res, hist, pr, req, tag, g, None, nontrivial)
+    phase("round3_batched")
     # ---- order of files / fragments ----------------------------------------------------------------------------------------
     perm_cases, perm_ref = [], []
-    for (pr, req, tag), g in allc[: (60 if tier == "quick" else 600)]:
+    for (pr, req, tag), g in allc[: ((60 if tier == "quick" else 600) + hist["large_projects"])]:
         if "frags" not in g or len(g["std"]) >= g["cfg"]["MaxClonePairs"]:
             continue
         src = pr.sources()
         for variant in range(2):
             s2 = list(src)
             rng.shuffle(s2)
-            perm_cases.append({"Files": s2, "Req": req, "Reverse": variant == 1})
+            perm_cases.append({"Files": s2, "Req": req, "Reverse": variant == 1, "Skip": ["std", "auto", "report_off"]})     # only report_cfg is read
             perm_ref.append((pr, req, tag, g))
-    for inp, (pr, req, tag, g), h in zip(perm_cases, perm_ref, C.harness_batch("clones", perm_cases, jobs=14)):
+    perm_out = E.harness_pool("clones", perm_cases, jobs=14, weights=[sum(len(f["Src"]) for f in c["Files"]) ** 2 for c in perm_cases])
+    phase("order")
+    for inp, (pr, req, tag, g), h in zip(perm_cases, perm_ref, perm_out):
         hist["order_variants"] += 1
         if "frags" not in h:
             res.violation("harness error on a permuted project: %s" % h.get("error"), {"files": inp["Files"], "req": req})
@@ -251,7 +341,10 @@ def run(tier, seed, replay=None):
     # ---- the real CLI on a few projects: same pairs as in process, file order by renaming -------------------------------------
     tmp = tempfile.mkdtemp(prefix="pv_c08_")
     try:
-        for ci, ((pr, req, tag), g) in enumerate(allc[: (6 if tier == "quick" else 40)]):
+        ncli = 4 if tier == "quick" else 40
+        # a few ordinary projects, plus one with a sync/async twin and one with a large fragment
+        cli = allc[:ncli] + [x for x in r1[ncli:] if x[0][0] in twin_projects][:1] + [x for x in r1[ncli:] if x[0][2].startswith("L")][:1]
+        for ci, ((pr, req, tag), g) in enumerate(cli):
             if "frags" not in g:
                 continue
             outs = []
@@ -293,6 +386,8 @@ def run(tier, seed, replay=None):
                               {"signature": {"kind": "order-cli"}, "files": pr.sources()})
     finally:
         shutil.rmtree(tmp, ignore_errors=True)
+    phase("cli")
+    hist["phase_seconds"] = phases
     if not ps.ok and not any(fi for _, _, fi in res.violations):
         res.violation("proof obligation or tie broken: " + "; ".join(ps.broken)[:1500],
                       {"broken": ps.broken, "note": "no project on which a reported pair is unjustified, a verbatim copy is missed or the order matters was found in %d configurations" % hist["configs"]},
@@ -301,7 +396,11 @@ def run(tier, seed, replay=None):
         "evaluations": hist["configs"] + hist["order_variants"] + hist["cli_runs"],
         "distinct_nontrivial": len(nontrivial),
         "rule": "generated projects (1-4 files in up to 3 directories, 2-5 base functions of 14-50 statements each rendered 1-3 times as verbatim / comment+blank noise / "
-                "re-indented / renamed identifiers+literals / one statement added or dropped); per project the default configuration and 2 (thorough 4) validated "
+                "re-indented / renamed identifiers+literals / one statement added or dropped; every third project also holds 1-2 sync/async twins: the coroutine "
+                "variant of one of its functions with `async def` / `async for` / `async with`; quick tier: projects above 9000 characters are regenerated); "
+                "plus 4 (thorough 24) projects in which a LARGE function or class (compared tree of 501-2000 nodes, and above 2000 nodes) appears verbatim / with "
+                "comment noise / re-indented in 2-3 places next to ordinary copied functions (large fragments of 500 nodes or less are not generated: the exact "
+                "comparison takes minutes per pair there); per project the default configuration and 2 (thorough 4) validated "
                 "configurations whose thresholds sit exactly on, one ulp above and one ulp below observed similarities, random enabled types, size minima on observed "
                 "sizes; every project also with files shuffled and fragments reversed; CLI on renamed copies; non-trivial = a configuration with at least one reported pair",
         "samples": [{"project": cases[0][0].sources()[0]["Src"][:600], "reported": first[0].get("report_cfg", {}).get("reported", [])[:3]}] if cases else [],
